@@ -209,6 +209,17 @@ def evalOf (C : Cfg) : Eval :=
     -- the right map checked against the left one (`validation_run` does both; not part of `fullRunR`)
     ccR := ccOf C.V C.CP' x.L.rows x.L.cols chR.filtered chL.filtered }
 
+/-- every left flag word of the staged evaluation against the model's memoised run `extRunMemo` on the tail of
+    `fullRunR` (proved equal to `fullRunR`: `extRunMemo_eq`, `extRunR_left_flag`) -/
+def memoOK (C : Cfg) (E : Eval) : Bool :=
+  let x := C.x
+  let F : FillCfg := { meth := none, v := { guard := true, op := .or }, off := 0 }
+  match extRunMemo C.K C.K' (tailOf C.K) (tailOf C.K') C.V C.CP C.CP' F x E.R E.R', E.ccL with
+  | some (l, _), some o =>
+    (List.range x.L.rows).all fun r => (List.range x.L.cols).all fun c => l.flag r c == (C07.outPix o r c).flag
+  | none, none => true
+  | _, _ => false
+
 def spotsOfJson (j : Json) : Except String (List (Nat × Nat)) := do
   let l ← listOfJson (listOfJson natOfJson) (fieldD j "spots" (Json.arr #[]))
   l.mapM fun p => match p with
@@ -227,7 +238,7 @@ def runOp (j : Json) : Except String Json := do
     ("gmin", intToJson (gminOf x)), ("gmax", intToJson (gmaxOf x)),
     ("disps", listToJson ratToJson C.K.disps), ("disps_right", listToJson ratToJson C.K'.disps),
     ("wf", Json.bool (wfShape x && wfShape xs)),
-    ("spot_ok", Json.bool (spotOK C E.R E.R' E.chL E.ccL spots)), ("spots", natToJson spots.length),
+    ("spot_ok", Json.bool (spotOK C E.R E.R' E.chL E.ccL spots && memoOK C E)), ("spots", natToJson spots.length),
     ("left", mkObj (chainToJson C.K x E.R E.chL ++ [("cc", ccToJson rows cols E.ccL)])),
     ("right", mkObj (chainToJson C.K' xs E.R' E.chR ++ [("cc", ccToJson rows cols E.ccR)]))]
 
@@ -349,13 +360,14 @@ def xrunOp (j : Json) : Except String Json := do
   let stR := tailStaged C.K' xs R' tail' (some m0')
   let A := stL.getLastD (some m0)
   let B := stR.getLastD (some m0')
-  let (ccJ, fillJ, staged) := match A, B with
-    | some a, some b =>
+  -- the final products: the model's memoised run `extRunMemo` (= `extRunR`: `extRunMemo_eq`), read once per pixel
+  let memoRun := (extRunMemo C.K C.K' tail tail' C.V C.CP C.CP' F x R R').map fun (l, r) =>
+    (Driver.C14.materialise l, Driver.C14.materialise r)
+  let (ccJ, fillJ, staged) := match A, B, memoRun with
+    | some a, some b, some (fl, fr) =>
       let lr := CrossCheck.validationRun C.V C.CP C.CP' (leftDataset rows cols a) (leftDataset rows cols b)
-      let fl := fillStaged F (Driver.C14.materialise (dmapOfOut rows cols lr.1))
-      let fr := fillStaged F (Driver.C14.materialise (dmapOfOut rows cols lr.2))
       ((outToJson rows cols lr.1, outToJson rows cols lr.2), (dmapToJson fl, dmapToJson fr), some (fl, fr))
-    | _, _ => ((Json.str "raises", Json.str "raises"), (Json.str "raises", Json.str "raises"), none)
+    | _, _, _ => ((Json.str "raises", Json.str "raises"), (Json.str "raises", Json.str "raises"), none)
   -- the literal definition at the sampled pixels
   let lit := extRunR C.K C.K' tail tail' C.V C.CP C.CP' F x R R'
   let spotOk := match lit, staged with
